@@ -109,6 +109,78 @@ def r17_2(ctx: Ctx, rep: Report, fixture: bool = False) -> int:
     return hits
 
 
+_MUT = ("append", "extend", "insert", "pop", "remove", "clear", "update", "setdefault", "add", "discard", "sort", "reverse", "popitem")
+
+
+def _is_mutable_literal(v: Optional[ast.AST]) -> bool:
+    return isinstance(v, (ast.List, ast.Dict, ast.Set, ast.ListComp, ast.DictComp, ast.SetComp)) or (isinstance(v, ast.Call) and isinstance(v.func, ast.Name) and v.func.id in ("list", "dict", "set", "defaultdict") )
+
+
+def r17_4(ctx: Ctx, rep: Report, fixture: bool = False) -> int:
+    """State shared between calls or between objects: a mutable default argument that the function changes, stores or
+    returns; a class-level container that is changed in place through an instance (never re-bound per instance)."""
+    rep.rule("R17.4")
+    hits = 0
+    n_defaults = 0
+    for f in ctx.prog.funcs:
+        a = f.node.args
+        pos = a.posonlyargs + a.args
+        pairs = list(zip(pos[len(pos) - len(a.defaults):], a.defaults)) + [(k, d) for k, d in zip(a.kwonlyargs, a.kw_defaults) if d is not None]
+        for arg, d in pairs:
+            if not _is_mutable_literal(d):
+                continue
+            n_defaults += 1
+            nm = arg.arg
+            if any(isinstance(x, ast.Name) and x.id == nm and isinstance(x.ctx, ast.Store) for x in own_nodes(f.node)):
+                # re-bound before use is the usual `x = x or []` idiom: look only at uses of the original
+                pass
+            for x in own_nodes(f.node):
+                if not (isinstance(x, ast.Name) and x.id == nm and isinstance(x.ctx, ast.Load)):
+                    continue
+                par = getattr(x, "_parent", None)
+                bad = None
+                if isinstance(par, ast.Attribute) and par.attr in _MUT and isinstance(getattr(par, "_parent", None), ast.Call):
+                    bad = "changed in place"
+                elif isinstance(par, ast.Subscript) and par.value is x and isinstance(par.ctx, (ast.Store, ast.Del)):
+                    bad = "changed in place"
+                elif isinstance(par, ast.Return):
+                    bad = "returned"
+                elif isinstance(par, ast.Assign) and par.value is x and any(isinstance(t, ast.Attribute) for t in par.targets):
+                    bad = "stored in an object"
+                if bad:
+                    hits += 1
+                    rep.violation(f.qualname, f"default {nm}={snippet(d, 20)}: {snippet(par, 40)}", f"the default value of `{nm}` is one object for all calls and is {bad}: what one call leaves in it is seen by the next", where(f, x))
+                    break
+    n_cls = 0
+    for cls in ctx.prog.classes.values():
+        for st in cls.node.body:
+            tg, v = None, None
+            if isinstance(st, ast.Assign) and len(st.targets) == 1 and isinstance(st.targets[0], ast.Name):
+                tg, v = st.targets[0].id, st.value
+            elif isinstance(st, ast.AnnAssign) and isinstance(st.target, ast.Name) and st.value is not None:
+                tg, v = st.target.id, st.value
+            if tg is None or not _is_mutable_literal(v):
+                continue
+            n_cls += 1
+            users = [c for c in ctx.prog.classes.values() if cls in c.mro]
+            rebound = any(isinstance(x, ast.Attribute) and x.attr == tg and isinstance(x.ctx, ast.Store) and src(x.value) == "self" for c in users for g in c.all_funcs() for x in own_nodes(g.node))
+            if rebound:
+                continue
+            for c in users:
+                for g in c.all_funcs():
+                    for x in own_nodes(g.node):
+                        if isinstance(x, ast.Attribute) and x.attr == tg and src(x.value) in ("self", "cls", cls.name) and isinstance(x.ctx, ast.Load):
+                            par = getattr(x, "_parent", None)
+                            if (isinstance(par, ast.Attribute) and par.attr in _MUT and isinstance(getattr(par, "_parent", None), ast.Call)) or (isinstance(par, ast.Subscript) and par.value is x and isinstance(par.ctx, (ast.Store, ast.Del))):
+                                hits += 1
+                                rep.violation(g.qualname, f"{cls.name}.{tg} = {snippet(v, 20)}: {snippet(par, 40)}", f"the class-level container `{tg}` is one object for every instance and is changed in place here: what one object does is seen by all others", where(g, x))
+    if not fixture:
+        rep.instance()
+        if hits == 0:
+            rep.ok("package", f"no mutable default argument is changed, stored or returned ({n_defaults} mutable defaults); no class-level container is changed in place through an instance ({n_cls} class-level containers)")
+    return hits
+
+
 class _Top(set):
     """Must-assign set of a function that never returns normally: absorbing for union (vacuous truth)."""
 
@@ -333,6 +405,8 @@ def run(ctx: Ctx, rep: Report, tier: str) -> None:
     from ..fixtures import run_fixture
 
     run_fixture("modstate", lambda c, r: r17_2(c, r, fixture=True), expect_violation="module-level")
+    r17_4(ctx, rep)
+    run_fixture("shared", lambda c, r: r17_4(c, r, fixture=True), expect_violation="one object for")
     n = memo_rules(ctx, rep, rid="R17.2m")
     if not n:
         rep.note("R17.2m no memoised method in the package")
